@@ -233,26 +233,33 @@ def iterpath(obj, path=None):
         path.append(varname)
         yield (path, varobj)
 
-        if isinstance(varobj, collections.abc.Mapping):
-
-            for item in iterpath(varobj, path):
-                yield item
-
-        elif isinstance(varobj, list):
-
-            for idx, item in enumerate(varobj):
-                index = '[{0}]'.format(idx)
-                path.append(index)
-
-                yield (path, item)
-
-                if isinstance(item, collections.abc.Mapping):
-                    for descendant in iterpath(item, path):
-                        yield descendant
-
-                path.pop()
+        for item in _iterpath_below(varobj, path):
+            yield item
 
         path.pop()
+
+
+def _iterpath_below(value, path):
+    """Helper of iterpath(): walks what is below ``value`` -- the properties
+    of a mapping, the elements of a list (or tuple) and, whatever an element
+    is, what is below it."""
+    if isinstance(value, collections.abc.Mapping):
+
+        for item in iterpath(value, path):
+            yield item
+
+    elif isinstance(value, (list, tuple)):
+
+        for idx, item in enumerate(value):
+            index = '[{0}]'.format(idx)
+            path.append(index)
+
+            yield (path, item)
+
+            for descendant in _iterpath_below(item, path):
+                yield descendant
+
+            path.pop()
 
 
 def check_tlp_marking(marking_obj, spec_version):
